@@ -137,6 +137,10 @@ func c03Case(ev *vlib.Evidence, driver string, idx int) {
 	tb, cls := targetAround(r, refMin)
 	how := setSpendable(w, r, client.NodeID, wallet, linked, tb)
 	if got := spendable(w, client.NodeID); got.Cmp(tb) != 0 {
+		if c := w.Deposits.Corrupted(); len(c) > 0 {
+			fail("deposit-cache-modified-by-the-pool", map[string]interface{}{"deposits": c, "after": "host connects"})
+			return
+		}
 		panic(fmt.Sprintf("harness: spendable %s != target %s", got, tb))
 	}
 	cc := w.Dial(client, "192.0.2.99:7")
@@ -161,6 +165,19 @@ func c03Case(ev *vlib.Evidence, driver string, idx int) {
 	if wantRefuse {
 		ev.Count("connect-refusals", 1)
 	}
+	if c := w.Deposits.Corrupted(); len(c) > 0 {
+		fail("deposit-cache-modified-by-the-pool", map[string]interface{}{"deposits": c, "after": "connect"})
+		return
+	}
+	// sometimes a host earns into the client's own wallet, or the client reports itself as a peer:
+	// its own account is then credited during its own keep-alive
+	sharedHost := ""
+	if linked && r.Intn(4) == 0 {
+		sharedHost = hosts[0].NodeID
+		w.RawStore.AddAccountNode(store.Account(wallet), store.NodeID(sharedHost))
+		trace = append(trace, "host0 earns into the client's wallet")
+	}
+	selfPeer := r.Intn(8) == 0
 	// keep-alives walking the balance around / across the threshold
 	tracked := map[string]bool{}
 	steps := 1 + r.Intn(5)
@@ -182,7 +199,19 @@ func c03Case(ev *vlib.Evidence, driver string, idx int) {
 				trace = append(trace, "close host connection "+h.Name)
 			}
 		}
+		if selfPeer {
+			infos = append(infos, ethnode.PeerInfo{ID: client.NodeID})
+			tracked[client.NodeID] = true
+		}
 		np := int64(len(tracked))
+		// peers whose credit flows back into the client's own account
+		back := int64(0)
+		if sharedHost != "" && tracked[sharedHost] {
+			back++
+		}
+		if tracked[client.NodeID] {
+			back++
+		}
 		// charge size class relative to the minimum
 		var perPeer int64
 		switch r.Intn(5) {
@@ -197,17 +226,23 @@ func c03Case(ev *vlib.Evidence, driver string, idx int) {
 		default:
 			perPeer = int64(time.Hour)
 		}
-		charge := new(big.Int).Mul(big.NewInt(perPeer), big.NewInt(np))
+		charge := new(big.Int).Mul(big.NewInt(perPeer), big.NewInt(np-back))
 		after, cls := targetAround(r, refMin)
 		beforeB := new(big.Int).Add(after, charge)
 		how := setSpendable(w, r, client.NodeID, wallet, linked, beforeB)
+		if c := w.Deposits.Corrupted(); len(c) > 0 {
+			fail("deposit-cache-modified-by-the-pool", map[string]interface{}{"deposits": c})
+			return
+		}
 		n0, err := w.RawStore.GetNode(store.NodeID(client.NodeID))
 		if err != nil {
 			panic(err)
 		}
 		w.Clock.Set(n0.LastSeen.Add(time.Duration(perPeer)))
 		stamp := w.Tick()
+		t0 := time.Now()
 		_, uerr := w.Update(cc.AgentSide, client, infos, uint64(s))
+		t1 := time.Now()
 		got := spendable(w, client.NodeID)
 		trace = append(trace, fmt.Sprintf("update tracked=%d charge=%s before=%s(%s) target-after=%s(%s) -> err=%v balance-after=%s", np, charge, beforeB, how, after, cls, uerr, got))
 		billed := charge.Sign() > 0
@@ -218,6 +253,13 @@ func c03Case(ev *vlib.Evidence, driver string, idx int) {
 		if uerr != nil && !isLow {
 			fail("update:unexpected-error", map[string]interface{}{"err": uerr.Error()})
 			return
+		}
+		if perPeer > 0 && np > 0 {
+			// the billed stretch ends where this keep-alive was received: it is never charged again
+			if n1, err := w.RawStore.GetNode(store.NodeID(client.NodeID)); err == nil && (n1.LastSeen.Before(t0.Add(-time.Millisecond)) || n1.LastSeen.After(t1.Add(time.Millisecond))) {
+				fail("update:billed-stretch-would-be-charged-again", map[string]interface{}{"last_seen_after_update": n1.LastSeen, "call_start": t0, "call_end": t1, "cut_off": uerr != nil})
+				return
+			}
 		}
 		if billed && got.Cmp(after) != 0 {
 			fail("update:charge-not-applied", map[string]interface{}{"balance_after": got.String(), "expected": after.String(), "cut_off": isLow})
